@@ -266,6 +266,18 @@ def run_item(item):
     themes = gen.THEMES_DARK if cls_dark else gen.THEMES_LIGHT
     if rng.random() < 0.2:
         opts['--default-language'] = rng.choice(['rs', 'py', 'txt'])
+    untagged_syntax = False
+    if kind == 'theme' and view == 'sbs' and rng.random() < 0.3:
+        # only the emphasis style of removed lines is configured (without 'syntax'); --minus-style and the non-emph style
+        # keep their side-by-side defaults, which are syntax-highlighted and carry none of the reserved colours
+        for sl in ('minus', 'minus_nonemph'):
+            opts.pop(SLOT_OPT[sl], None)
+            syn.pop(sl, None)
+            fixed.pop(sl, None)
+        opts[SLOT_OPT['minus_emph']] = 'normal %s' % gen.TAGS['minus_emph']
+        syn['minus_emph'] = False
+        fixed['minus_emph'] = None
+        untagged_syntax = True
     if kind == 'theme':
         name = rng.choice(names)
         lines = make_diff(rng, lang, name)
@@ -399,7 +411,7 @@ def run_item(item):
             if cx.fg != cy.fg:
                 if kind == 'rename':
                     return bad('rename:colouring-depends-on-name', 'per-cell foreground differs between two file names of the same kind %s' % (label,), repr(cx), repr(cy))
-                if slot in syn and syn[slot]:
+                if (slot in syn and syn[slot]) or (slot is None and untagged_syntax):
                     counters['fg_differences'] += 1
                 else:
                     return bad('theme:foreground-changed-outside-syntax-style', 'foreground differs between themes on a cell whose style is not syntax-highlighted (slot %s)' % slot,
